@@ -3,11 +3,21 @@
    OPT / SVCB option loops.  Same checks in the same order as the C code; the status
    conventions (`if (status != ARES_SUCCESS) return status;`) are the [do] of the outcome monad.
 
+   The model is parametrised by a [variant]: the code as proposed in fixes/C04-*.patch
+   ([fixed_tree], what [dns_parse] and every theorem about agreement with the RFCs is about) and
+   the code of the pinned tree ([pinned_tree], kept for the _refuted witnesses).
+
    Not modelled: allocation failure (ARES_ENOMEM paths; they belong to C14) - every malloc
    succeeds, so ares_dns_record_rr_prealloc() is a no-op. *)
 From CAres.Wire Require Export Cursor Name Record.
 From CAres.Gen Require Import Consts LeafFns Tables.
 Local Open Scope Z_scope.
+
+Record variant := mkVariant {
+  v_raw_type_first : bool;   (* ares_dns_parse_rr_raw_rr stores the type before testing rdlength == 0 *)
+  v_opt_append : bool }.     (* OPT / SVCB / HTTPS decoders append (add_opt_own) instead of replace *)
+Definition fixed_tree : variant := mkVariant true true.
+Definition pinned_tree : variant := mkVariant false false.
 
 Definition st := (cursor * rr)%type.
 
@@ -17,6 +27,7 @@ Definition rr_remaining_len (c : cursor) (orig_len rdlength : Z) : outcome Z :=
   c_ares_dns_rr_remaining_len orig_len rdlength l.
 
 Section Decoders.
+  Variable vr : variant.
   Variable fuel : nat.       (* name-parser fuel: S (data_len), computed once per message *)
 
   (* ares_dns_parse_and_set_dns_name(buf, ARES_FALSE, rr, key) *)
@@ -169,7 +180,7 @@ Section Decoders.
       do r1 <- fetch_be16 c1;
       let '(len, c2) := r1 in
       do r2 <- (if negb (len =? 0) then fetch_bytes c2 len else Ok ([], c2));
-      do r' <- rr_set_opt (snd s) key opt (fst r2);
+      do r' <- (if v_opt_append vr then rr_add_opt else rr_set_opt) (snd s) key opt (fst r2);
       opt_loop lf (snd r2, r') orig_len rdlength key
     end.
 
@@ -221,11 +232,18 @@ Section Decoders.
     parse_and_set_rest_bin s orig_len rdlength ARES_RR_CAA_VALUE.
 
   Definition parse_rr_raw_rr (s : st) (rdlength raw_type : Z) : outcome st :=
-    if rdlength =? 0 then Ok s else
-    do r <- fetch_bytes (fst s) rdlength;
-    do r' <- rr_set (snd s) ARES_RR_RAW_RR_TYPE (FU16 raw_type);
-    do r' <- rr_set r' ARES_RR_RAW_RR_DATA (FBin (Some (fst r)));
-    Ok (snd r, r').
+    if v_raw_type_first vr then
+      do r0 <- rr_set (snd s) ARES_RR_RAW_RR_TYPE (FU16 raw_type);
+      if rdlength =? 0 then Ok (fst s, r0) else
+      do r <- fetch_bytes (fst s) rdlength;
+      do r' <- rr_set r0 ARES_RR_RAW_RR_DATA (FBin (Some (fst r)));
+      Ok (snd r, r')
+    else
+      if rdlength =? 0 then Ok s else
+      do r <- fetch_bytes (fst s) rdlength;
+      do r' <- rr_set (snd s) ARES_RR_RAW_RR_TYPE (FU16 raw_type);
+      do r' <- rr_set r' ARES_RR_RAW_RR_DATA (FBin (Some (fst r)));
+      Ok (snd r, r').
 
   (* ares_dns_parse_rr_data: the switch over the (possibly overridden) type *)
   Definition parse_rr_data (s : st) (rdlength type raw_type raw_class raw_ttl raw_rcode : Z)
@@ -344,7 +362,10 @@ Section Decoders.
 End Decoders.
 
 (* ares_dns_parse(buf, buf_len, flags, &dnsrec) on a block of exactly [bs] *)
-Definition dns_parse (bs : list N) (flags : Z) : outcome dnsrec :=
+Definition dns_parse_v (vr : variant) (bs : list N) (flags : Z) : outcome dnsrec :=
   if Z.of_nat (length bs) =? 0 then Err ARES_EFORMERR else
   let c := cur_of_bytes bs in
-  parse_buf (name_fuel c) c flags.
+  parse_buf vr (name_fuel c) c flags.
+
+Definition dns_parse := dns_parse_v fixed_tree.
+Definition dns_parse_pinned := dns_parse_v pinned_tree.
